@@ -182,7 +182,8 @@ def check_prot(case):
                 body = "\n".join(seq[a:b] for a, b in parts)
                 for fmt, fname, text in (("fasta", "p.fasta", f">sp|P1 PROTEIN test\n{body}\n"),
                                          ("ig-linear", "p.ig", f"; PROTEIN sequence\nTITLE\n{body}1\n"),
-                                         ("ig-linear", "p.ig", f"; PROTEIN sequence\nDNA polymerase, RNA binding\n{body}1\n")):
+                                         ("ig-linear", "p.ig", f"; PROTEIN sequence\nDNA polymerase, RNA binding\n{body}1\n"),
+                                         ("ig-circular", "p.ig", f"; PROTEIN sequence\nTITLE\n{body}2\n")):
                     evals += 1
                     case1 = dict(kind="prot1", fmt=fmt, fname=fname, text=text, seq=seq)
                     try:
@@ -190,7 +191,7 @@ def check_prot(case):
                     except Exception as exc:  # noqa
                         viols.append(crash_violation(exc, case1, assertion="sequence-file-readable"))
                         continue
-                    want = expect_linear(ref_names("AA", seq))
+                    want = expect_linear(ref_names("AA", seq), fmt == "ig-circular")
                     got = graph_view(mm)
                     if got != want and len(viols) < 20:
                         viols.append(dict(assertion="residue-graph-as-specified", tags=[f"fmt:{fmt}"],
